@@ -432,6 +432,29 @@ func TestVerifC16(t *testing.T) {
 				row.Mon = append(row.Mon, fmt.Sprintf("VAA %s, present after an earlier reopen, is %s after the kill of cycle %d", e.id.ToString(), map[bool]string{true: "different", false: "missing"}[ok], cycle))
 			}
 		}
+		// results of lookups are held while further lookups are made (a batch RPC collects up to 20 before answering; concurrent
+		// RPCs overlap): each must still be the stored bytes afterwards — "a lookup never returns bytes that differ from a VAA stored
+		// under that identifier" is about the bytes the caller holds, not about a buffer that is valid until the next call
+		{
+			type held struct {
+				id   vaa.VAAID
+				b    []byte
+				want string
+			}
+			var hs []held
+			for k := 0; k < nprev && len(hs) < 64; k++ {
+				e := expects[(k*7919)%nprev]
+				if b, err := d.GetSignedVAABytes(e.id); err == nil {
+					hs = append(hs, held{e.id, b, e.bytes})
+				}
+			}
+			for _, h := range hs {
+				if hex.EncodeToString(h.b) != h.want {
+					row.Mon = append(row.Mon, fmt.Sprintf("the bytes returned by the lookup of %s changed while %d later lookups were made (the result is not the caller's own copy of the stored VAA)", h.id.ToString(), len(hs)))
+					break
+				}
+			}
+		}
 		// the cycles killed since the last verification, oldest first
 		for pi, pc := range pending {
 			row := pc.row
